@@ -419,7 +419,22 @@ impl<CS: BbsCiphersuite> PoKSignature<BBSplus<CS>> {
         let api_id = CS::API_ID_BLIND;
 
         let U = proof.m_cap.len();
-        let M = disclosed_indexes.len() + disclosed_commitment_indexes.len() + U - 1 - L;
+        // M = R1 + R2 + U - 1 - L; an L that does not fit the proof is an error, not an arithmetic overflow
+        let M = (disclosed_indexes.len() + disclosed_commitment_indexes.len() + U)
+            .checked_sub(1)
+            .ok_or_else(|| Error::PoKSVerificationError("Invalid number of messages".to_owned()))?
+            .checked_sub(L)
+            .ok_or_else(|| Error::PoKSVerificationError("Invalid number of messages".to_owned()))?;
+
+        if disclosed_indexes.iter().any(|&i| i >= L) {
+            return Err(Error::PoKSVerificationError(
+                "disclosed index out of range".to_owned(),
+            ));
+        } else if disclosed_commitment_indexes.iter().any(|&j| j >= M) {
+            return Err(Error::PoKSVerificationError(
+                "commitment disclosed index out of range".to_owned(),
+            ));
+        }
 
         let (message_scalars, generators) = prepare_parameters::<CS>(
             Some(disclosed_messages),
